@@ -1211,6 +1211,18 @@ def run(rep):
                       if not (r == 'R01b' and role != 'validation-covers-every-node')}
     rep.broken[bb:] = [b.replace('R01b', 'R03s') for b in rep.broken[bb:] if 'extraction-time validation loops' in b]
     rep.rule_text.pop('R01b', None)
+    # R03u: a terminate() request is seen by the very next evaluation, also in periodic mode (C18's R18e under C03's id): it is what makes
+    # "solve() returns after a bounded number of further evaluations" true for a planner stopped from outside
+    from rules import c18
+    Fp = facts.load_units([src('base', 'src', 'PlannerTerminationCondition.cpp')])
+    rep.units.add(src('base', 'src', 'PlannerTerminationCondition.cpp'))
+    before = len(rep.obl)
+    c18.r18e(rep, Fp)
+    rep.rule_text['R03u'] = 'a stop request is honoured by the next evaluation: ' + rep.rule_text.pop('R18e')
+    for o in rep.obl[before:]:
+        if o['rule'] == 'R18e':
+            o['rule'] = 'R03u'
+    rep.nontrivial = {(('R03u' if r == 'R18e' else r), fn_, role) for (r, fn_, role) in rep.nontrivial}
     rep.rule('R03s', 'the extraction-time validation of a lazy planner looks at every extracted node before the path is reported: the loop that '
                      'validates mpath[i] runs over the whole list and can stop early only through the failure verdict (a flag the failing branch '
                      'clears, or return false) -- never through the termination condition or another conjunct while the verdict is still '
